@@ -89,13 +89,20 @@ def gen_case(rng, gen_t, exact):
     n = rng.choice([0, 1, 1, 2, 2, 3, 4, 5])
     init = [gen_t(rng) for _ in range(n)]
     edits = []
+    m = n
     if rng.random() < 0.6:
-        m = n
         for _ in range(rng.randint(1, 4)):
             e = gen_edit(rng, m, gen_t)
             edits.append(e)
             m = m + 1 if e[0] in ('append', 'insert') else max(0, m - 1) if e[0] == 'delete' else 0 if e[0] == 'clear' else m
-    case = {'mode': rng.choice(['C', 'L']), 'init': init, 'edits': edits, 'form': rng.randrange(6),
+    edits2 = []
+    if rng.random() < 0.35:
+        m2 = max(0, m if edits else n)
+        for _ in range(rng.randint(1, 3)):
+            e = gen_edit(rng, m2, gen_t)
+            edits2.append(e)
+            m2 = m2 + 1 if e[0] in ('append', 'insert') else max(0, m2 - 1) if e[0] == 'delete' else 0 if e[0] == 'clear' else m2
+    case = {'mode': rng.choice(['C', 'L']), 'init': init, 'edits': edits, 'edits2': edits2, 'form': rng.randrange(6),
             'save_via': rng.choice(['node', 'doc']), 'nest': rng.choice([0, 0, 1, 2]), 'exact': exact}
     return case
 
@@ -106,7 +113,7 @@ def within_limit(case):
     with rotations present the bound is 2^13, so the accumulated error stays below the worker's 0.05"""
     b = 1
     rot = False
-    ts = list(case['init']) + [e[-1] for e in case['edits'] if e[0] in ('append', 'insert', 'replace')]
+    ts = list(case['init']) + [e[-1] for e in case['edits'] + case.get('edits2', []) if e[0] in ('append', 'insert', 'replace')]
     for t in ts:
         b *= norm_bound(t)
         rot = rot or t[0] == 'rotate'
@@ -165,7 +172,7 @@ def gen_float_case(rng):
     if rng.random() < 0.4:
         # one transform alone, wide magnitudes
         t = gen_float_transform(rng)
-        return {'mode': rng.choice(['C', 'L']), 'init': [t], 'edits': [], 'form': rng.randrange(6),
+        return {'mode': rng.choice(['C', 'L']), 'init': [t], 'edits': [], 'edits2': [], 'form': rng.randrange(6),
                 'save_via': 'node', 'nest': 0, 'exact': False}
     return gen_case(rng, lambda r: gen_float_transform(r, tame=True), False)
 
@@ -215,8 +222,9 @@ def c_edit(e):
 def c_case(case, obs):
     zl = lambda l: clist([cZ(x) for x in l])
     return ctuple(clist([c_transform(t, case['mode'] == 'L') for t in case['init']]),
-                  clist([c_edit(e) for e in case['edits']]),
-                  zl(obs['init']), clist([zl(m) for m in obs['mats']]), zl(obs['saved']), zl(obs['reloaded']))
+                  clist([c_edit(e) for e in case['edits']]), clist([c_edit(e) for e in case.get('edits2', [])]),
+                  zl(obs['init']), clist([zl(m) for m in obs['mats']]), zl(obs['saved']),
+                  clist([zl(m) for m in obs['mats2']]), zl(obs['saved2']), zl(obs['reloaded']))
 
 
 # ------------------------------------------------------------------ running
@@ -253,11 +261,12 @@ def shrink(case, f, rounds=8):
     cur = dict(case)
     for _ in range(rounds):
         cands = []
-        for i in range(len(cur['edits'])):
-            c = dict(cur)
-            c['edits'] = cur['edits'][:i] + cur['edits'][i + 1:]
-            cands.append(c)
-        if not any(e[0] in ('insert', 'delete', 'replace') for e in cur['edits']):
+        for key in ('edits2', 'edits'):
+            for i in range(len(cur.get(key, []))):
+                c = dict(cur)
+                c[key] = cur[key][:i] + cur[key][i + 1:]
+                cands.append(c)
+        if not any(e[0] in ('insert', 'delete', 'replace') for e in cur['edits'] + cur.get('edits2', [])):
             for i in range(len(cur['init'])):
                 c = dict(cur)
                 c['init'] = cur['init'][:i] + cur['init'][i + 1:]
@@ -329,15 +338,17 @@ def run(ctx):
     # distribution
     kinds, modes, seen = {}, {}, set()
     nests = {}
+    twice = 0
     edited = 0
     for c in cases:
         for t in c['init']:
             kinds[t[0]] = kinds.get(t[0], 0) + 1
         modes[c['mode']] = modes.get(c['mode'], 0) + 1
         edited += 1 if c['edits'] else 0
+        twice += 1 if c.get('edits2') else 0
         nests[str(c.get('nest', 0))] = nests.get(str(c.get('nest', 0)), 0) + 1
         if len(c['init']) + len(c['edits']) >= 2 or (c['init'] and c['init'][0][0] in ('rotate', 'lookat', 'matrix')):
-            seen.add(core.canon_hash([c['mode'], c['init'], c['edits']]))
+            seen.add(core.canon_hash([c['mode'], c['init'], c['edits'], c.get('edits2')]))
     corr = {
         'evaluations': len(cases),
         'distinct_nontrivial': len(seen),
@@ -351,7 +362,7 @@ def run(ctx):
                 'distinct = different (mode, transforms, edits)',
         'samples': [{'mode': c['mode'], 'init': c['init'], 'edits': c['edits'], 'observed': r['obs']}
                     for c, r in ex_cases[len(corpus_cases()):len(corpus_cases()) + 3]],
-        'distribution': {'transforms_by_kind': kinds, 'constructed_vs_loaded': modes, 'cases_with_edit_history': edited,
+        'distribution': {'transforms_by_kind': kinds, 'constructed_vs_loaded': modes, 'cases_with_edit_history': edited, 'cases_with_a_second_edit_history_after_the_first_save': twice,
                          'node_is_root_child_librarynode': nests,
                          'integer_exact_cases': len(exact), 'float_cases': len(floats),
                          'integer_cases_rejected_by_magnitude_bound': rejected},
